@@ -242,7 +242,7 @@ func (g G) tamper(label string, m *MsgSpec) {
 		case "field-proto":
 			m.Tamper = append(m.Tamper, Tamper{Op: "field", S: "ProtocolBinding=" + g.pick(lab+".pb", BindPost, BindRedirect, BindArtifact, "urn:evil")})
 		case "field-acsidx":
-			m.Tamper = append(m.Tamper, Tamper{Op: "field", S: "AssertionConsumerServiceIndex=" + g.pick(lab+".ai", "0", "1", "9", "-1", "x")})
+			m.Tamper = append(m.Tamper, Tamper{Op: "field", S: "AssertionConsumerServiceIndex=" + g.pick(lab+".ai", "0", "1", "9", "-1", "x", "01", "+1", "00", "02", " 1", "1.0", "65536", "4294967297", "0x1", "")})
 		case "issuer":
 			m.Tamper = append(m.Tamper, Tamper{Op: "issuer", S: g.pick(lab+".is", "https://rogue.example/metadata", "https://sp1.example/"+spMarker(1)+"/metadata", "")})
 		case "bitflip":
